@@ -27,6 +27,7 @@ def run(ctx):
         netprops.run_scenarios(ctx, res, netprops.scenario_streams, 300, "streams-preempt", preempt=3)
         for spec in ("popen//execmodel=main_thread_only", "popen//python=/venv/bin/python"):
             netprops.process_level_streams(ctx, res, nconv=1 if "main_thread_only" in spec else 3, spec=spec)
+    netprops.process_level_structured(ctx, res)
     return res
 
 
